@@ -3,7 +3,7 @@ CONSTANTS
   Clients = {"a"}
   N = 2
   MaxUrls = 1
-  Statuses = {200, 404}
+  Statuses = {200, 404, 503}
   DropPts = {0, 1, 2, 3, 4}
   TmpOks = {TRUE, FALSE}
   CacheOks = {TRUE, FALSE}
